@@ -75,7 +75,24 @@ func genIllCase(r *rand.Rand, id int) *Case {
 	c.Corpus = "illtyped"
 	nmut := r.Intn(3)
 	for m := 0; m < nmut; m++ {
-		switch r.Intn(9) {
+		switch r.Intn(10) {
+		case 9: // an infix whose RIGHT operand has another type than the left one
+			var es []J
+			collectExprs(c.Stmts, &es)
+			var cands []J
+			for _, e := range es {
+				if e["k"] == "num" || e["k"] == "mon" || e["k"] == "var" {
+					cands = append(cands, e)
+				}
+			}
+			if len(cands) > 0 {
+				e := pick(r, cands)
+				left := J{}
+				for k, v := range e {
+					left[k] = v
+				}
+				overwrite(e, eInfix(pick(r, []string{"+", "-"}), left, pick(r, []J{eStr("1"), eAcct("fees"), eAsset("USD"), ePortion(1, 2)})))
+			}
 		case 0, 1, 2: // an expression of another type / an undeclared variable
 			var es []J
 			collectExprs(c.Stmts, &es)
